@@ -75,7 +75,12 @@ func BindFromViper(cmd *cobra.Command, v *viper.Viper) error {
 					} else {
 						flagName = "--" + f.Name
 					}
-					fmt.Fprintf(cmd.ErrOrStderr(), "invalid argument %q for %q flag: %v", value, flagName, err)
+					shown := fmt.Sprintf("%q", value)
+					if rv, ok := f.Value.(redactedValue); ok && rv.Unredacted() != f.Value {
+						// The flag is bound with a redact function, its value may carry a secret: do not echo it.
+						shown = `"xxxxx"`
+					}
+					fmt.Fprintf(cmd.ErrOrStderr(), "invalid argument %s for %q flag: %v", shown, flagName, err)
 					ok = false
 				} else {
 					if f.Deprecated != "" {
